@@ -193,7 +193,7 @@ def _worker(a):
                 cmds += ["HOOKS", "DUMP", "LOAD " + confgen.pct(live or paths[li]), "DUMP", "HOOKS"]
             cmds += [r[0] for r, p in zip(regs, points) if p == n]
             cmds += ["DUMP", "HOOKS", "LOAD " + confgen.pct(live or paths[-1]), "DUMP", "HOOKS"]
-            b.case("h%d" % i, cmds)
+            b.case("h%d" % i, ["FDS"] + cmds + ["FDS"])
             b.case("b%d" % i, [r[0] for r in regs] + ["LOAD " + confgen.pct(paths[-1]), "DUMP"])
             b.case("a%d" % i, ["LOAD " + confgen.pct(paths[-1])] + [r[0] for r in regs] + ["DUMP"])
             meta[i] = (files, regs, points, texts, bad_at is not None and bad_at > 0)
@@ -253,6 +253,13 @@ def _worker(a):
                             "after %d loads the live tree differs from %s:\n%s\nfiles:\n%s\nregs: %s points %s" % (
                                 n, nm, "\n".join(diff[:6]), "\n---\n".join(wit["files"]), wit["regs"], points), wit))
                 break
+        # --- nothing is left open: as many file descriptors after the history as before it
+        fds = [int(o[6:]) for o in H.other if o.startswith("FDS n=")]
+        if len(fds) == 2:
+            stats["descriptor_counts_compared"] = stats.get("descriptor_counts_compared", 0) + 1
+            if fds[0] != fds[1]:
+                out.append(("descriptors", "descriptors", "%d file descriptors were open before the %d loads of this history, %d after them\nfiles:\n%s" % (
+                    fds[0], n + 1, fds[1], "\n---\n".join(wit["files"])), wit))
         # --- idempotence
         again = project(H.dumps[2 * n + 1])
         stats["idempotent_reloads"] += 1
